@@ -4,7 +4,7 @@
 cd /verif
 out=/verif/seeded/matrix.log
 : > $out
-for pair in "C01 C01" "C02 C02" "C03 C03" "C04 C04" "C05 C05" "C06 C06" "C07 C07" "C07 C03" "C08 C08" "C08 C04" "C09 C09" "C10 C10" "C11 C11" "C12 C12" "C14 C14" "C15 C15" "C16 C16" "C17 C17" "C18 C18"; do
+for pair in "C01 C01" "C02 C02" "C03 C03" "C04 C04" "C05 C05" "C06 C06" "C07 C07" "C07 C03" "C08 C08" "C08 C04" "C09 C09" "C10 C10" "C11 C11" "C12 C12" "C14 C14" "C15 C15" "C16 C16" "C17 C17" "C18 C18" "C01b C01" "C01b C07" "C03b C03" "C04b C04" "C05b C05" "C07b C07" "C09b C09" "C17b C17" "C18b C18" "C02b C02" "C06b C06" "C08b C08" "C10b C10" "C11b C11" "C12b C12" "C14b C14" "C15b C15" "C16b C16"; do
   set -- $pair
   [ -z "$(git -C /repo status --porcelain --untracked-files=no)" ] || { echo "/repo not clean"; exit 3; }
   git -C /repo apply /verif/seeded/$1/patch.diff || { echo "seed $1: patch does not apply" >> $out; continue; }
